@@ -3,7 +3,7 @@ C15, byte level: the laws of `Proofs/FilterDomUniv.lean` discharged from W5's cl
 (`Proofs/HtmlClosed*.lean`): the `Simple` grammar with arbitrary tag names and attribute texts.
 -/
 import RioModel.Proofs.FilterDomUniv
-import RioModel.Proofs.HtmlClosed2
+import RioModel.Proofs.HtmlClosed3
 set_option linter.unusedSimpArgs false
 set_option linter.unusedVariables false
 
@@ -99,5 +99,170 @@ theorem self_closed_U (d a : Bytes) (h : SelfOKU d a) :
     (by simpa [Tokenizer.new] using hdE) (by simp) (nameOK_ascii hn) (by simp)
   rw [hx]
   simpa [selfTok, kindOf, TagEnd.text, List.append_assoc] using this
+
+/-! ### end tags, comments, declarations -/
+
+def EndOKU (d : Bytes) : Prop := nameOK d = true
+
+theorem end_closed_U (d : Bytes) (h : EndOKU d) :
+    Closed (endTok (lowerName d) d).raw [endTok (lowerName d) d] := by
+  have hx : (endTok (lowerName d) d).raw = [60, 47] ++ d ++ [62] := by simp [endTok]
+  have cf := end_tag_closed_form (Tokenizer.new ([60, 47] ++ d ++ [62]).toArray) d (ok_new _) rfl rfl h
+    (by simpa [Tokenizer.new] using has_new _)
+  obtain ⟨pc, hdS, hdE⟩ := cf
+  have := closed_of_piece_tag (x := [60, 47] ++ d ++ [62]) (disp := d) (k := .endTag) (a := 2) (Or.inr (Or.inl rfl))
+    (by simpa [Tokenizer.new] using pc) (by simpa [Tokenizer.new] using hdS)
+    (by simpa [Tokenizer.new] using hdE) (by simp) (nameOK_ascii h) (by simp)
+  rw [hx]
+  simpa [endTok, kindOf] using this
+
+/-- a comment `<!--` body `-->` (no `>` and no `!` in the body) or a doctype declaration `<!DOCTYPE …>` -/
+def OtherOKU (x : Bytes) : Prop :=
+  (∃ body, commentOK body = true ∧ x = [60, 33, 45, 45] ++ body ++ [45, 45, 62]) ∨
+  (∃ kw r, doctypeOK kw r = true ∧ x = [60, 33] ++ kw ++ r ++ [62])
+
+theorem closed_of_piece_plain {x : Bytes} {k : TokenType} (hk : k = .comment ∨ k = .doctype)
+    (pc : Piece (Tokenizer.new x.toArray) (next (Tokenizer.new x.toArray)) k x.length []) (hx : x ≠ []) :
+    Closed x [⟨.other, x, []⟩] := by
+  have f : StepFacts (Tokenizer.new x.toArray) k x [] :=
+    ⟨by simpa [Tokenizer.new] using hasA_toArray x, pc.token, pc.rawE, pc.err, pc.rawTag, pc.cdata⟩
+  have hst := step_plain (inv_new _) f (by rcases hk with h | h <;> simp [h])
+  have hkind : kindOf k = .other := by rcases hk with rfl | rfl <;> rfl
+  rw [hkind] at hst
+  refine ⟨next (Tokenizer.new x.toArray), ?_, by simpa [Tokenizer.new] using pc.rawE, pc.err, pc.rawTag,
+    by simpa [Tokenizer.new] using pc.cdata, List.length_pos_iff.mpr hx⟩
+  rw [closedEnd_cons hst pc.err]; rfl
+
+theorem other_closed_U (x : Bytes) (h : OtherOKU x) : Closed x [⟨.other, x, []⟩] ∧ StartsOpener x := by
+  rcases h with ⟨body, hb, rfl⟩ | ⟨kw, r, hok, rfl⟩
+  · refine ⟨?_, ⟨33, [45, 45] ++ body ++ [45, 45, 62], by simp, by decide⟩⟩
+    have cf := comment_closed_form (Tokenizer.new ([60, 33, 45, 45] ++ body ++ [45, 45, 62]).toArray) body
+      (ok_new _) rfl rfl hb (by simpa [Tokenizer.new] using has_new _)
+    exact closed_of_piece_plain (Or.inl rfl) (by simpa [Tokenizer.new] using cf.1) (by simp)
+  · refine ⟨?_, ⟨33, kw ++ r ++ [62], by simp, by decide⟩⟩
+    have cf := doctype_closed_form (Tokenizer.new ([60, 33] ++ kw ++ r ++ [62]).toArray) kw r
+      (ok_new _) rfl rfl hok (by simpa [Tokenizer.new] using has_new _)
+    exact closed_of_piece_plain (Or.inr rfl) (by simpa [Tokenizer.new] using cf.1) (by simp)
+
+/-! ### raw-text elements (script, style, title, textarea, …): start tag, raw text, end tag as one closed piece -/
+
+def RawOKU (d a c : Bytes) : Prop :=
+  nameOK d = true ∧ isRawName (lowerName d) = true ∧ lowerName d ≠ Rio.Consts.htmlPlaintext ∧
+  (∃ (as : List SAttr) (trail : Bytes), a = attrsOf as ++ trail ∧ (∀ x ∈ as, x.ok = true) ∧
+    (∀ b ∈ trail, isWs b = true)) ∧
+  rawContentOK c = true
+
+theorem raw_closed_U (d a c : Bytes) (h : RawOKU d a c) :
+    Closed ((startTok (lowerName d) d a).raw ++ c ++ (endTok (lowerName d) d).raw)
+      (startTok (lowerName d) d a :: (textToks c ++ [endTok (lowerName d) d])) ∧
+    StartsOpener (startTok (lowerName d) d a).raw := by
+  obtain ⟨hn, hraw, hpl, ⟨as, trail, rfl, hok, htr⟩, hc⟩ := h
+  obtain ⟨c0, rest0, hd0, hc0⟩ := nameOK_head hn
+  refine ⟨?_, ⟨c0, rest0 ++ (attrsOf as ++ trail) ++ [62], by subst hd0; simp [startTok], opener_of_alpha hc0⟩⟩
+  -- the three parts
+  let S : Bytes := [60] ++ d ++ attrsOf as ++ trail ++ TagEnd.gt.text
+  let E : Bytes := [60, 47] ++ d ++ [62]
+  have hS : (startTok (lowerName d) d (attrsOf as ++ trail)).raw = S := by
+    simp [S, startTok, TagEnd.text, List.append_assoc]
+  have hE : (endTok (lowerName d) d).raw = E := by simp [E, endTok]
+  rw [hS, hE]
+  let x : Bytes := S ++ c ++ E
+  let t0 := Tokenizer.new x.toArray
+  have hx0 : Has t0 0 (S ++ (c ++ E)) := by
+    have := has_new x
+    simpa [x, t0, List.append_assoc] using this
+  have hlow : lowerName d = d.map lowerByte := rfl
+  -- step 1: the start tag
+  have cf1 := start_tag_closed_form t0 d as trail .gt (ok_new _) rfl rfl hn hok htr rfl
+    (by simpa [t0, Tokenizer.new, S] using hx0.left)
+  rw [← hlow, hraw] at cf1
+  simp only [if_true] at cf1
+  obtain ⟨pc1, hdS1, hdE1⟩ := cf1
+  have f1 : StepFacts t0 .startTag S (lowerName d) :=
+    ⟨by simpa [t0, Tokenizer.new] using hasA_of_has hx0.left, by simpa [TagEnd.kind] using pc1.token,
+      by simpa [S] using pc1.rawE, pc1.err, pc1.rawTag, pc1.cdata⟩
+  obtain ⟨t2, hst1, inv2, r2, e2, tg2, cd2, b2⟩ := step_tag (disp := d) (a := 1) (inv_new _) f1 (Or.inl rfl)
+    hdS1 hdE1 (by simp [S]) (nameOK_ascii hn)
+  have hrE0 : t0.rawE = 0 := rfl
+  have hdne : d ≠ [] := by subst hd0; simp
+  have htagne : t2.rawTag ≠ [] := by rw [tg2, hlow]; simpa using hdne
+  have hhas2 : Has t2 t2.rawE (c ++ E) := by
+    have := hx0.right
+    exact (this.congr b2).at (by rw [r2, hrE0])
+  -- the end tag from a state `u` positioned at it, outside / leaving the raw-text context
+  have endStep : ∀ (u : Tokenizer), Inv u → u.err = false → u.buf = t0.buf → u.allowCdata = true →
+      Has u u.rawE E → u.rawE + E.length = x.length →
+      (Piece u (next u) .endTag E.length [] ∧ (next u).dataS = u.rawE + 2 ∧ (next u).dataE = u.rawE + 2 + d.length) →
+      ∃ u', closedEnd u [endTok (lowerName d) d] = some u' ∧ u'.rawE = x.length ∧ u'.err = false ∧
+        u'.rawTag = [] ∧ u'.allowCdata = true := by
+    intro u iu eu bu cu hu hlen cf
+    obtain ⟨pc, hdS, hdE⟩ := cf
+    have f : StepFacts u .endTag E [] := ⟨hasA_of_has hu, pc.token, pc.rawE, pc.err, pc.rawTag, pc.cdata⟩
+    obtain ⟨u', hst, _, r', e', tg', cd', _⟩ := step_tag (disp := d) (a := 2) iu f (Or.inr (Or.inl rfl))
+      hdS hdE (by simp [E]) (nameOK_ascii hn)
+    refine ⟨u', ?_, by rw [r', hlen], e', tg', by rw [cd', cu]⟩
+    have : (⟨kindOf TokenType.endTag, E, lowerName d⟩ : Tok) = endTok (lowerName d) d := by
+      simp [endTok, kindOf, E]
+    rw [this] at hst
+    rw [closedEnd_cons hst pc.err]; rfl
+  have hstart : (⟨kindOf TokenType.startTag, S, lowerName d⟩ : Tok) =
+      startTok (lowerName d) d (attrsOf as ++ trail) := by
+    simp [startTok, kindOf, S, TagEnd.text, List.append_assoc]
+  rw [hstart] at hst1
+  have hxlen : x.length = S.length + c.length + E.length := by simp [x]
+  by_cases hcne : c = []
+  · -- no content: `next` goes straight to the end tag
+    subst hcne
+    have hhasE : Has t2 t2.rawE E := by simpa using hhas2
+    have cf2 := rawtext_empty_closed_form t2 d inv2.ok e2 (by rw [tg2]) htagne (by rw [tg2]; exact hpl) hn hhasE
+    obtain ⟨u', hce, h1, h2, h3, h4⟩ := endStep t2 inv2 e2 b2 (by rw [cd2]; rfl) hhasE
+      (by rw [r2, hrE0, hxlen]; simp) cf2
+    refine ⟨u', ?_, by simpa [x] using h1, h2, h3, h4, by simp [x, S]⟩
+    simp only [textToks, List.isEmpty_nil, if_true, List.nil_append]
+    have : S ++ [] ++ E = x := by simp [x]
+    rw [this, closedEnd_cons hst1 pc1.err]
+    exact hce
+  · -- the raw text, then the end tag
+    have hhasC : Has t2 t2.rawE (c ++ [60, 47] ++ d ++ [62]) := by simpa [E, List.append_assoc] using hhas2
+    have cf2 := rawtext_closed_form t2 d c 62 inv2.ok e2 (by rw [tg2]) htagne (by rw [tg2]; exact hpl)
+      (by rw [tg2]; exact TagOk_lower_of_nameOK hn) hc hcne (by decide) hhasC
+    obtain ⟨pc2, _, _⟩ := cf2
+    have f2 : StepFacts t2 .text c [] := ⟨hasA_of_has hhas2.left, pc2.token, pc2.rawE, pc2.err, pc2.rawTag, pc2.cdata⟩
+    have hst2 := step_plain inv2 f2 (Or.inl rfl)
+    have inv3 := next_inv' t2 inv2
+    have hhas3 : Has (next t2) (next t2).rawE E := pc2.rest rfl hhas2
+    have cf3 := end_tag_closed_form (next t2) d inv3.ok pc2.err pc2.rawTag hn hhas3
+    obtain ⟨u', hce, h1, h2, h3, h4⟩ := endStep (next t2) inv3 pc2.err (pc2.buf.trans b2)
+      (by rw [pc2.cdata, cd2]; rfl) hhas3 (by rw [pc2.rawE, r2, hrE0, hxlen]; omega) cf3
+    refine ⟨u', ?_, by simpa [x] using h1, h2, h3, h4, by simp [x, S]⟩
+    have hemp : c.isEmpty = false := by cases c with
+      | nil => exact absurd rfl hcne
+      | cons _ _ => rfl
+    have htext : (⟨kindOf TokenType.text, c, []⟩ : Tok) = ⟨.text, c, []⟩ := rfl
+    rw [htext] at hst2
+    simp only [textToks, hemp, Bool.false_eq_true, if_false, List.cons_append, List.nil_append]
+    show closedEnd t0 _ = some u'
+    rw [closedEnd_cons hst1 pc1.err, closedEnd_cons hst2 pc2.err]
+    exact hce
+
+theorem raw_noLt_U (d a c : Bytes) (h : RawOKU d a c) : ∀ b ∈ c, b ≠ 60 := by
+  intro b hb
+  have := h.2.2.2.2
+  simp only [rawContentOK, List.all_eq_true] at this
+  simpa using this b hb
+
+/-- **the laws hold for the tokenizer of the filters** -/
+def simpleLaws : Laws where
+  StartOK := StartOKU
+  SelfOK := SelfOKU
+  EndOK := EndOKU
+  RawOK := RawOKU
+  OtherOK := OtherOKU
+  start_closed := start_closed_U
+  self_closed := self_closed_U
+  end_closed := end_closed_U
+  raw_closed := raw_closed_U
+  other_closed := other_closed_U
+  raw_noLt := raw_noLt_U
 
 end Rio.Filter
